@@ -32,6 +32,30 @@ type C08Session struct {
 	// Frame: srv-bigframe: the hostile server packs its (otherwise valid) output
 	// into multiplex frames of up to this many bytes (up to the 24-bit limit)
 	Frame int `json:"frame,omitempty"`
+	// Plan selects the checksum layout the hostile receiver signs its basis
+	// with (c08Plans): mutations of one header field then meet bases that are
+	// exact multiples of the block length, single blocks, short strong sums...
+	Plan int `json:"plan,omitempty"`
+}
+
+// (basis length, block length, strong checksum length)
+var c08Plans = [][3]int{{51, 16, 16}, {48, 16, 16}, {16, 16, 2}, {64, 64, 2}, {1400, 700, 16}, {700, 700, 2}, {33, 11, 8}, {5, 8, 16}, {256, 1, 1}}
+
+func c08Plan(variant int) func(idx int, e *refproto.Entry, seed int32) (bool, []byte, int, int) {
+	if variant < 0 {
+		variant = -variant
+	}
+	p := c08Plans[variant%len(c08Plans)]
+	basis := make([]byte, p[0])
+	for i := range basis {
+		basis[i] = byte('a' + (i*7+i/13)%26)
+	}
+	return func(idx int, e *refproto.Entry, seed int32) (bool, []byte, int, int) {
+		if idx%3 != 2 {
+			return true, basis, p[1], p[2]
+		}
+		return true, nil, 0, 0
+	}
 }
 
 type C08Scenario struct {
@@ -139,7 +163,7 @@ func (c08) Generate(seed uint64, tier string, index int) any {
 		if sc.Target == "daemon" {
 			switch g.R.Intn(10) {
 			case 0, 1, 2:
-				s = C08Session{Kind: "pull-mut", Mut: genMutation(g, c08ClientPullFields), Module: []string{"ro", "fsm", "rw"}[g.R.Intn(3)]}
+				s = C08Session{Kind: "pull-mut", Mut: genMutation(g, c08ClientPullFields), Module: []string{"ro", "fsm", "rw"}[g.R.Intn(3)], Plan: g.R.Intn(len(c08Plans))}
 			case 3, 4, 5:
 				s = C08Session{Kind: "push-mut", Mut: genMutation(g, c08ClientPushFields), Opts: []string{"-r", "-rlogD", "-rc", "-r --delete"}[g.R.Intn(4):][:1]}
 			case 6:
@@ -159,7 +183,7 @@ func (c08) Generate(seed uint64, tier string, index int) any {
 			case 0, 1:
 				s = C08Session{Kind: "srv-pull-mut", Mut: genMutation(g, c08ServerSendFields), Opts: []string{"-r", "-rlogD", "-rc", "-rn", "-a"}[g.R.Intn(5):][:1]}
 			case 2, 3:
-				s = C08Session{Kind: "srv-push-mut", Mut: genMutation(g, c08ServerRecvFields), Opts: []string{"-r", "-rt", "-rc"}[g.R.Intn(3):][:1]}
+				s = C08Session{Kind: "srv-push-mut", Mut: genMutation(g, c08ServerRecvFields), Opts: []string{"-r", "-rt", "-rc"}[g.R.Intn(3):][:1], Plan: g.R.Intn(len(c08Plans))}
 			default:
 				s = C08Session{Kind: "srv-noise", Noise: g.R.Uint64() >> 1, NoiseN: 1 + g.R.Intn(3000), Stage: g.R.Intn(4), Opts: []string{"-r"}}
 			}
@@ -297,12 +321,7 @@ func c08Daemon(t *testing.T, sc *C08Scenario, job *Job, res *Result) {
 				out, _ = runParty("hostile", func(w *refproto.Wire, end *kernel.End) error {
 					w.Mut = mut
 					_, err := refproto.Pull(w, refproto.PullOpts{Daemon: true, Module: mod, Args: []string{"--server", "--sender", "-r", ".", mod + "/"}, Filters: []string{"- nothing"}, ServerIsSender: true, MaxData: 1 << 20,
-						Plan: func(idx int, e *refproto.Entry, seed int32) (bool, []byte, int, int) {
-							if idx%2 == 0 {
-								return true, []byte("some basis data to sign, long enough for two blocks"), 16, 16
-							}
-							return true, nil, 0, 0
-						}})
+						Plan: c08Plan(s.Plan)})
 					return err
 				}, s.CutAt)
 			case "push-mut", "cut-push":
@@ -484,12 +503,7 @@ func c08Client(t *testing.T, sc *C08Scenario, job *Job, res *Result) {
 			rr.Ref = func(w *refproto.Wire) error {
 				w.Mut = mut
 				refproto.Pull(w, refproto.PullOpts{AsServer: true, Daemon: true, ServerSeed: 5, OptsFromArgs: true, MaxData: 1 << 20,
-					Plan: func(idx int, e *refproto.Entry, seed int32) (bool, []byte, int, int) {
-						if idx%2 == 0 {
-							return true, []byte("some basis data to sign, long enough for two blocks"), 16, 16
-						}
-						return true, nil, 0, 0
-					}})
+					Plan: c08Plan(s.Plan)})
 				return nil
 			}
 		case "srv-bigframe":
